@@ -110,9 +110,11 @@ Proof.
 Qed.
 
 (* ---------------------------------------------------------------------------------------- *)
-(* The positive no-lost-wake-up statement under the guard that excludes F35 and F9: every wait
-   on the semaphore uses the same demand d.  STATED, NOT PROVED (notes/C02.md gives the
-   invariant): kept as a Definition, no theorem claims it. *)
+(* The positive no-lost-wake-up statement under the guard that excludes F35: every wait on the
+   semaphore uses the same demand d.  Its IN-ORDER instance (o = false) is PROVED in C02_NLW.v
+   (`nlw_inorder_uniform`, theorem `sem_no_lost_wakeup_inorder_uniform`).  The statement below
+   quantifies over both resume modes; its out-of-order instance is not proved (that mode is F9's
+   class: the scan pcs deadlock / crash), so it stays a Definition and no theorem claims it. *)
 Definition label_uniform (d : Z) (l : label) : Prop :=
   match l with LStart _ (OpWait c _ _) => c = d \/ c = 0 | _ => True end.
 Inductive reachable_u (d : Z) (s0 : state) : state -> Prop :=
